@@ -15,8 +15,8 @@ func init() {
 		Title:       "Relayed byte streams are exact, ordered and complete in both directions",
 		DesignRef:   "DESIGN.md §3 C06",
 		Technique:   "framing arithmetic and copy discipline of the three functions every relayed byte passes through, decided by SSA value identity (length prefix, payload slice and read count are one value), static widths, loop discipline by marker reachability, and guarded reachability of the host write",
-		LevelText:   "Static, necessary conditions only: the DATA header's length is len(payload)+8 with an 8-byte header (C16/header rule); in the host->client relay the 16-bit length prefix and the payload slice both use the count returned by this iteration's Read into a buffer whose constant capacity fits 16 bits, exactly one DATA packet is written per successful read, the assembly buffer is reset on every path to the next iteration, and the loop ends only on a read error; in the client->host direction the bytes written to the host are the whole slice of the declared length that was filled from the packet, and they are written only when that fill succeeded; each direction is served by one goroutine (receive called only from the packet loop, forward spawned once per channel); at the transport edge a websocket packet read is exactly one ReadMessage result, a legacy read exactly the bytes one Read of the buffered chunked body returned, each WritePacket is one library write of exactly the packet given, and no write deadline is armed on a relay connection (Tunnel.Write ignores write errors). End-to-end stream equality for all byte streams and interleavings is a run-time quantity and is not decided.",
-		LevelNote:   "Trusted: encoding/binary, bytes.Buffer, net.Conn read/write semantics. Not decided: equality of streams end to end; the write side of interleaving is C09.",
+		LevelText:   "Static, necessary conditions only: the DATA header's length is len(payload)+8 with an 8-byte header (C16/header rule); in the host->client relay the 16-bit length prefix and the payload slice both use the count returned by this iteration's Read into a buffer whose constant capacity fits 16 bits, exactly one DATA packet is written per successful read, the assembly buffer is reset on every path to the next iteration, and the loop ends only on a read error; in the client->host direction the bytes written to the host are the whole slice of the declared length that was filled from the packet, and they are written only when that fill succeeded; each direction is served by one goroutine (receive called only from the packet loop, forward spawned once per channel); at the transport edge a websocket packet read is exactly one ReadMessage result, a legacy read exactly the bytes one Read of the buffered chunked body returned, each WritePacket is one library write of exactly the packet given, and no write deadline is armed on a relay connection (Tunnel.Write ignores write errors). A fragment kept for reassembly must be kept whole (copies into the fixed-size reassembly buffer bounded or their count checked): violated by today's framer for a first fragment above 4096 bytes and recorded as a known finding. End-to-end stream equality for all byte streams and interleavings is a run-time quantity and is not decided.",
+		LevelNote:   "Trusted: encoding/binary, bytes.Buffer, net.Conn read/write semantics. Not decided: equality of streams end to end; the write side of interleaving is C09. Known finding: readMessage truncates a first fragment larger than its 4096-byte buffer and can accept the result (host receives displaced bytes).",
 		Explanation: "C06/header re-runs the createPacket layout rule. C06/forward identifies the Read call of the relay loop and demands that the uint16 prefix and the payload slice are built from its count, the buffer is constant-size <= 65535, and uses marker reachability for 'one packet per read' and 'reset before next iteration'. C06/receive ties the written slice to the declared length and the checked fill. C06/order inventories the callers of receive and the go sites of forward. C06/transports checks the shape of both Transport implementations and of NewLegacy, and inventories deadline calls in the transport and protocol packages.",
 		Assumptions: []string{"a Read returning n > 0 with a non-nil error is treated as an error by the relay (bytes dropped at connection end; acceptable at EOF)"},
 		Rules: []RuleDef{
@@ -28,6 +28,7 @@ func init() {
 			{"C06/header-tests", "a complete packet is never taken for a fragment: readHeader's length tests are strict (<)", func(c *Ctx) { headerTests(c, "C06/header-tests") }},
 			{"C06/buffer-ownership", "a packet is assembled and handed on in storage of the call or the connection: no package-level buffer, no pooled buffer that the returned payload still aliases", func(c *Ctx) { packetBuffersPrivate(c, "C06/buffer-ownership") }},
 			{"C06/framer-accepts", "a packet is handed to the packet loop as complete only with readHeader's verdict: type, size and payload of an accepting return of readMessage are readHeader's results", func(c *Ctx) { framerAcceptsThroughHeader(c, "C06/framer-accepts") }},
+			{"C06/fragment-store", "a fragment kept for reassembly is kept whole: copies into the fixed-size reassembly buffer are bounded or their count is checked (C08's bounded-copy rule; violated by today's framer, known finding)", func(c *Ctx) { boundedCopyAs(c, "C06/fragment-store") }},
 			{"C06/transports", "both transports hand over whole reads and write exactly the packet given, once, without deadlines", func(c *Ctx) {
 				transportRules(c, "C06/transports", true)
 				c.Floor("C06/transports", 5, "two reads, constructor, two writes")
